@@ -7,7 +7,9 @@ import (
 	"encoding/json"
 	"os"
 	"strconv"
+	"strings"
 	"sync"
+	"sync/atomic"
 	"testing"
 	"time"
 )
@@ -60,7 +62,47 @@ func (w *Writer) Close() {
 	defer w.mu.Unlock()
 	w.w.Flush()
 	w.f.Close()
+	if n := envDropped.Load(); n > 0 {
+		_ = os.WriteFile(w.f.Name()+".envdropped", []byte(strconv.FormatInt(n, 10)), 0o644)
+	}
 }
+
+// Environment failures: the embedded etcd itself failing (a request timed out on an overloaded machine ...).
+// The outcome of such a call is unknown - it may or may not have been applied - so the input during which it
+// happened cannot be judged: the driver drops it and counts it; the count goes to <trace>.envdropped and the
+// pipeline refuses a verdict when too many inputs were dropped.
+var envFails, envDropped atomic.Int64
+
+func IsEnvErr(err error) bool {
+	if err == nil {
+		return false
+	}
+	m := err.Error()
+	return strings.Contains(m, "etcdserver:") || strings.Contains(m, "mvcc:") || strings.Contains(m, "code = Unavailable")
+}
+
+// NoteErr records err if it is an environment failure; it returns err's verdict for convenience.
+func NoteErr(err error) bool {
+	if IsEnvErr(err) {
+		envFails.Add(1)
+		return true
+	}
+	return false
+}
+
+func EnvMark() int64 { return envFails.Load() }
+
+// EnvFailedSince: an environment failure was noted since the mark (then the input is counted as dropped).
+func EnvFailedSince(mark int64) bool {
+	if envFails.Load() != mark {
+		envDropped.Add(1)
+		return true
+	}
+	return false
+}
+
+// NoteEnvDrop counts an input dropped on behalf of a worker process.
+func NoteEnvDrop() { envDropped.Add(1) }
 
 func Seed() int64 { return int64(EnvInt("VERIF_SEED", 1)) }
 
